@@ -11,6 +11,18 @@ import os
 from tools import common
 
 LEVEL = "proof"
+MANIFEST = dict(
+    category="proof",
+    text="Lean 4 theorems over a model of util.write_continue/write_lines (text preservation, grouping of whole parts "
+         "per physical line, break points only at TAB/FF, marker on every broken line, length bound 'fits or carries at most "
+         "one part', directive semantics, totality) for all lines/lengths/indents; the model is tied to util.py on every run by "
+         "differential correspondence through the compiled Lean driver; an implementation-only oracle searches for failing inputs.",
+    design="3 C13",
+    note="Trusted: Lean kernel (axioms propext, Classical.choice, Quot.sound only); the hand-written model, validated only on "
+         "generated inputs (exhaustive short strings over the directive alphabet + seeded random lines); Python whitespace "
+         "modelled on ASCII+U+0085/U+00A0. The 132-column consequence for real outputs is a corpus measurement (thorough tier).",
+    technique="Lean 4 proof by induction over the part list + differential correspondence model/implementation",
+)
 MODULES = ["ShroudVerif.Props.C13"]
 THEOREMS = {
     "ShroudVerif.Props.C13": [
@@ -172,8 +184,8 @@ def rand_line(r):
 
 def run(ctx):
     thorough = ctx.tier == "thorough"
-    ok = ctx.lean(MODULES, THEOREMS)
-    drv = common.Driver()
+    ok = ctx.lean(MODULES, THEOREMS, extra_targets=("drv_lines",))
+    drv = common.Driver("drv_lines")
     w = _mixin()
     r = common.rng("c13")
     ctx.cov["trusted_base"] = [
